@@ -16,6 +16,7 @@ var checks = map[string]func(run *ev.Run){
 	"C03": genlab.CheckC03,
 	"C05": genlab.CheckC05,
 	"C06": genlab.CheckC06,
+	"C07": genlab.CheckC07,
 	"C08": genlab.CheckC08,
 	"C09": genlab.CheckC09,
 	"C10": genlab.CheckC10,
